@@ -353,7 +353,7 @@ pub use imp::exec;
 
 pub fn plan(tier: &str) -> u64 {
     match tier {
-        "thorough" => 13_000,
+        "thorough" => 60_000,
         "selfcheck" => 20_000,
         _ => 500,
     }
